@@ -36,6 +36,8 @@ def run(tier, seed, work, replay):
     W, T, F = {"op": "wait", "d": 3}, {"op": "try", "right": True}, {"op": "try", "right": False}
     quickfire = {"op": "wait", "d": 1}
     systematic = [
+        {"kind": "otp_parallel", "origin": "same-instant-right", "right": True, "n": 8, "users": 4 if tier == "quick" else 20, "delayMs": 15},
+        {"kind": "otp_parallel", "origin": "same-instant-wrong", "right": False, "n": 8, "users": 4 if tier == "quick" else 20, "delayMs": 15},
         {"kind": "otp", "origin": "normal", "steps": [T, W, T]},
         {"kind": "otp", "origin": "rapid", "steps": [F, T, quickfire, T, W, T]},
         {"kind": "otp", "origin": "five-failures-then-right", "steps": [F, W, F, W, F, W, F, W, F, W, T, W, T]},
